@@ -6,11 +6,11 @@ from .. import inputs
 from . import geom
 
 SPEC = dict(
-    technique='Lean 4 proof (slerp end points, range, value, unit norm; regenerated model) + float monitor of the matrix/class interpolators',
-    lean_modules=['SmVerif.Props.C11'],
+    technique='Lean 4 proof (slerp end points, range, value, unit norm; planar interpolation: angle and translation linear in s, members, end points; regenerated model) + float monitor of the 3-D matrix/class interpolators',
+    lean_modules=['SmVerif.Props.C11', 'SmVerif.Props.Interp2'],
     groups=['Quaternions', 'Transforms3d', 'Transforms2d'],
     expected_untranslatable=('trinterp_T', 'trinterp_T_nostart'),
-    partial=['slerp laws are proved on the traced slerp; trinterp = q2r∘slerp∘r2q composes them with C04 (r2q) and is explored as a whole; '
+    partial=['slerp laws and the planar interpolators are proved on the traced functions; trinterp = q2r∘slerp∘r2q composes them with C04 (r2q) and is explored as a whole; '
              'UnitQuaternion.interp (uses float()) is explored'],
     assumptions=['agreement 1e-6 on generated inputs only'],
 )
@@ -192,6 +192,15 @@ def _impl(tier, seed, search):
             elif ok: L.close('SE2.interp', Us[:2, :2], inputs.r2(a0 + s * da), TOL, 1.0, i2)
             ok, Us = L.noraise('trinterp2-R', lambda: b.trinterp2(inputs.r2(a0), inputs.r2(a1), s), i2, 'trinterp2 on SO(2)')
             if ok and isinstance(Us, np.ndarray): L.close('trinterp2-R', Us, inputs.r2(a0 + s * da), TOL, 1.0, i2)
+            # start omitted = identity start: the angle is s * (end angle) for every end angle in (-pi, pi), translation s * t1
+            for nm_, call_, ref_ in (('trinterp2(None,R,s)', lambda: b.trinterp2(None, inputs.r2(a1), s), inputs.r2(s * a1)),
+                                     ('trinterp2(None,T,s)', lambda: b.trinterp2(None, U1, s)[:2, :2], inputs.r2(s * a1)),
+                                     ('SO2.interp(s)', lambda: SO2(U1[:2, :2], check=False).interp(s).A, inputs.r2(s * a1)),
+                                     ('SE2.interp(s)', lambda: SE2(U1, check=False).interp(s).A[:2, :2], inputs.r2(s * a1))):
+                ok, Un = L.noraise(nm_, call_, dict(a1=a1, s=s), f'{nm_} (start omitted)', sig=f'{nm_}:raises')
+                if ok and isinstance(Un, np.ndarray): L.close(nm_, Un, ref_, TOL, 1.0, dict(a1=a1, s=s), what='with the start omitted the planar rotation is not through s times the end angle', sig='interp2:nostart')
+            ok, Un = L.noraise('trinterp2(None,T,s):t', lambda: b.trinterp2(None, U1, s)[:2, 2], dict(a1=a1, s=s), 'trinterp2(None, T, s)')
+            if ok: L.close('trinterp2(None,T,s):translation', Un, s * t1[:2], TOL, tsc, dict(a1=a1, s=s), sig='interp2:nostart')
             # a vector of s (with and without an explicit start) gives, element by element, the scalar results
             svec2 = [0.0, s, 1.0, 0.5 * s]
             for cls2, M0, M1 in ((SE2, U0, U1), (SO2, U0[:2, :2], U1[:2, :2])):
